@@ -349,9 +349,9 @@ DESIGNS_QUICK = [
 ]
 DESIGNS_THOROUGH = [
     COVER,
-    ("life", mc_cfg(S2, [], "real", ["gh", "g", "h"], ["same", "fresh"], 13, 2, 1, 3, [1, 2], ["LifeOrder"]), False),
-    ("serve", mc_cfg(S2, [1, 2], "real", ["gh", "g", "h"], ["same"], 19, 0, 0, 2, [1], ["ServeOrder"]), False),
-    ("restart", mc_cfg(S1, [1, 2], "real", ["gh"], ["same", "fresh"], 18, 1, 0, 2, [1, 2], ["ServeOrder"]), False),
+    ("life", mc_cfg(S2, [], "real", ["gh", "g", "h"], ["same", "fresh"], 12, 2, 1, 3, [1, 2], ["LifeOrder"]), False),
+    ("serve", mc_cfg(S2, [1, 2], "real", ["gh", "g", "h"], ["same"], 15, 0, 0, 2, [1], ["ServeOrder"]), False),
+    ("restart", mc_cfg(S1, [1, 2], "real", ["gh"], ["same", "fresh"], 15, 1, 0, 2, [1, 2], ["ServeOrder"]), False),
 ]
 VACUOUS = {}
 NEGATIVE = [
@@ -361,10 +361,12 @@ NEGATIVE = [
 # (label, generator configuration, number of random behaviours or None = exhaustive, depth)
 GEN_QUICK = [
     ("tiny", gen_cfg(S2, [1], ["gh"], ["same"], 6, 1, 0, 1), None, None),
-    ("sim", gen_cfg(["traces", "metrics", "logs", "profiles"], [1, 2, 3, 4], ["gh", "g", "h"], ["same", "fresh"], 16, 3, 1, 4), 700, 90),
+    ("one", gen_cfg(S1, [1, 2], ["gh", "g"], ["same"], 8, 0, 0, 2), None, None),       # one signal: more steps left for requests
+    ("sim", gen_cfg(["traces", "metrics", "logs", "profiles"], [1, 2, 3, 4], ["gh", "g", "h"], ["same", "fresh"], 16, 3, 1, 4), 1200, 90),
 ]
 GEN_THOROUGH = [
-    ("tiny", gen_cfg(S2, [1, 2], ["gh"], ["same"], 7, 1, 0, 2), None, None),
+    ("tiny", gen_cfg(S2, [1], ["gh", "g", "h"], ["same"], 6, 1, 0, 2), None, None),
+    ("one", gen_cfg(S1, [1, 2], ["gh", "g", "h"], ["same", "fresh"], 8, 0, 0, 2), None, None),
     ("sim", gen_cfg(["traces", "metrics", "logs", "profiles"], [1, 2, 3, 4], ["gh", "g", "h"], ["same", "fresh"], 18, 3, 2, 5), 8000, 110),
     ("sim2", gen_cfg(S2, [1, 2, 3], ["gh", "g", "h"], ["same", "fresh"], 14, 2, 1, 4), 4000, 90),
 ]
